@@ -514,7 +514,24 @@ impl<C: Config> Engine<C> {
         };
 
         // if cyclic dependency is detected, return error
-        Self::is_query_running_in_scc(caller)?;
+        if let Err(err) = Self::is_query_running_in_scc(caller) {
+            // The caller is cut short at this read and evaluates to its SCC
+            // value, which is not a function of the value read here: whether
+            // the caller lies on a cycle is decided by the queries behind
+            // this callee. Keeping the observation would let a later repair
+            // find the callee unchanged (e.g. still evaluating to its own SCC
+            // value for another reason) and keep the caller's SCC value
+            // after the cycle has disappeared. Without an observation the
+            // repair re-executes the caller as soon as anything behind the
+            // callee has changed.
+            if let Some(computing) =
+                caller.get_query_caller().and_then(|x| x.try_computing())
+            {
+                computing.forget_callee_observation(&query.id);
+            }
+
+            return Err(err);
+        }
 
         Ok(value)
     }
